@@ -64,7 +64,7 @@ def _hdr(draw, flavour):
     k = draw(st.sampled_from(HDR_KINDS[flavour]))
     step_c = draw(st.sampled_from([1, 1, 1, 2, 2, 3, 4, 5]))
     ub_c = draw(st.sampled_from(UBS))
-    lb_c = draw(st.sampled_from([0] * 8 + [1, 2, 3]))
+    lb_c = draw(st.sampled_from([0] * 8 + [1, 2, 3, -1, -2, -4]))
     if k == "const":
         return dict(lb=["c", lb_c], ub=["c", ub_c], step=["c", step_c])
     if k == "dyn":
@@ -252,7 +252,7 @@ def _inputs(draw, nidx, mems, nloops, nvec):
         m = [[ext.pop() for _ in dims] for dims in mems]
         loops = []
         for _ in range(nloops):
-            lb = draw(st.sampled_from([0, 0, 0, 1, 2, 5]))
+            lb = draw(st.sampled_from([0, 0, 0, 1, 2, 5, -1, -3]))
             step = draw(st.sampled_from([1, 1, 2, 3, 4]))
             ub = lb + draw(st.sampled_from([-2, 0, 1, 2, 3, 4, 5, 7, 8]))
             loops.append([lb, ub, step])
